@@ -117,6 +117,23 @@ fn call(toks: &[&str]) -> String {
             }
             .to_string())
         }
+        "banned" => {
+            // banned <ban list> <exception list> <source>
+            let set = |x: &str| -> Option<std::collections::HashSet<String>> {
+                let v = unesc_list(x);
+                if v.is_empty() {
+                    None
+                } else {
+                    Some(v.into_iter().collect())
+                }
+            };
+            let m = ChannelModes {
+                ban: set(toks[1]),
+                exception: set(toks[2]),
+                ..ChannelModes::default()
+            };
+            b(m.banned(&a(3)))
+        }
         "hash" => esc(&argon2_hash_password(&a(1))),
         "verify" => b(argon2_verify_password(&a(1), &a(2)).is_ok()),
         "vhash" => b(validate_password_hash(&a(1)).is_ok()),
